@@ -21,11 +21,13 @@
     positions), leaves the other sections as they were and keeps [dinv]; hence (C11_concrete_walk_exact) from a fresh cursor it
     terminates within (|D|+1)(n+1) calls of next with exactly the survivors in their order, every survivor yielded, nothing yielded
     that was not in the section - for every decision that depends only on the record under the cursor and never chooses the OPT
-    record; such decisions exist (C11_delete_everything_but_opt).  What is still decided by the correspondence only: the variant of
-    next() that skips the OPT record, walks that start on a compressed object (the first delete decompresses), the question. *)
+    record; such decisions exist (C11_delete_everything_but_opt).  The same from the object as the parser returned it, compressed
+    or not ([objst]: C11_walk_on_any_object, C11_delete_on_any_object): the first deletion runs the decompress-and-translate
+    prologue, which lands on the same record of the pointer-free packet (Proofs/DecompressFirst.v).  What is still decided by the
+    correspondence only: the variant of next() that skips the OPT record, and the question section. *)
 From Coq Require Import List Arith Bool.
 From DV Require Import Model.Base Model.Parser Model.Header Model.Readers Model.Mutate Spec.NameSpec Spec.PacketSpec Spec.RecordSpec Spec.PlainSpec
-  Proofs.Hoare Proofs.WalkSkip Proofs.PlainWf Proofs.InsertSpec Proofs.DeleteInv Proofs.Totality Proofs.WalkInv Proofs.DeleteWalk.
+  Proofs.Hoare Proofs.WalkSkip Proofs.PlainWf Proofs.InsertSpec Proofs.DeleteInv Proofs.Totality Proofs.WalkInv Proofs.DecompressFirst Proofs.WalkFresh Proofs.DeleteWalk.
 Import ListNotations.
 
 Theorem C11_walk_terminates : forall (A : Type) (D : A -> bool) (l : list A),
@@ -172,3 +174,36 @@ Proof.
   split; [reflexivity|]. split; [reflexivity|]. split; [intros; unfold Cur; tauto|]. split; [intros; unfold yielded; tauto|].
   split; [intros; unfold other_sections_kept; tauto|]. split; reflexivity.
 Qed.
+
+(** [objst v]: [v] satisfies [dinv] or is a packet as the parser returned it *)
+Theorem C11_delete_on_any_object : forall sec v qls qt lA lN lR l1 r x l2 n,
+  objst v -> reading (pp_packet v) qls qt lA lN lR -> sec = SAnswer \/ sec = SNameServers \/ sec = SAdditional ->
+  sec_list sec lA lN lR = l1 ++ (r, x) :: l2 -> is_opt r = false ->
+  exists s', m_delete (v, cur_on sec r n) = (s', Ok tt) /\
+  dinv (fst s') /\ it_offset (snd s') = None /\ it_section (snd s') = sec /\
+  exists lA' lN' lR', reading (pp_packet (fst s')) qls qt lA' lN' lR' /\
+    map unpl (sec_list sec lA' lN' lR') = map unpl l1 ++ map unpl l2 /\ other_sections_kept sec lA lN lR lA' lN' lR'.
+Proof. exact delete_obj. Qed.
+Print Assumptions C11_delete_on_any_object.
+
+Theorem C11_walk_on_any_object : forall sec, sec = SAnswer \/ sec = SNameServers \/ sec = SAdditional ->
+  forall (D : rec_view * rd_view -> bool) (dec : ppacket -> rrit -> bool),
+  (forall y, D y = true -> is_opt (fst y) = false) ->
+  (forall v qls qt lA lN lR rxp n, reading (pp_packet v) qls qt lA lN lR -> In rxp (sec_list sec lA lN lR) ->
+     dec v (cur_on sec (fst rxp) n) = D (unpl rxp)) ->
+  forall v it qls qt lA lN lR,
+    objst v -> reading (pp_packet v) qls qt lA lN lR -> it_offset it = None -> it_section it = sec ->
+    let l := map unpl (sec_list sec lA lN lR) in
+    exists v' cs lA' lN' lR' ys,
+      cwalk dec ((ndel D l + 1) * (length l + 1)) v it [] = Some (v', cs) /\ objst v' /\ reading (pp_packet v') qls qt lA' lN' lR' /\
+      map unpl (sec_list sec lA' lN' lR') = filter (keep D) l /\ other_sections_kept sec lA lN lR lA' lN' lR' /\
+      Forall2 (yielded sec) cs ys /\ (forall y, In y (filter (keep D) l) -> In y ys) /\ (forall y, In y ys -> In y l).
+Proof. exact walk_deletes_exactly_obj. Qed.
+Print Assumptions C11_walk_on_any_object.
+
+Theorem C11_parsed_packets_are_such_objects : forall p v, bytes_ok p -> parse p = Ok v -> objst v.
+Proof. exact parsed_is_objst. Qed.
+Print Assumptions C11_parsed_packets_are_such_objects.
+
+Example C11_objst_means : forall v, objst v <-> dinv v \/ (bytes_ok (pp_packet v) /\ parse (pp_packet v) = Ok v).
+Proof. intros v. unfold objst. tauto. Qed.
